@@ -1122,7 +1122,8 @@ class ListTerm(PreTerm):
     # derived from PreTerm as this is not combinable
     def __init__(self, value):
         assert isinstance(value, (list, tuple))
-        self.value = list(value)  # copy and standardize to a list
+        # copy and standardize to a list of terms (plain Python items as values)
+        self.value = [vi if isinstance(vi, PreTerm) else Value(vi) for vi in value]
         PreTerm.__init__(self)
 
     def is_equal(self, other):
